@@ -794,6 +794,13 @@ func checkC14(r *mon.Run) {
 			add("pkcs8-rsa-with-headers", pem.EncodeToMemory(&pem.Block{Type: "PRIVATE KEY", Headers: map[string]string{"Proc-Type": "4,ENCRYPTED", "DEK-Info": "AES-256-CBC,00"}, Bytes: der}))
 		}
 		add("pkcs1-rsa-public", pemOf("RSA PUBLIC KEY", x509.MarshalPKCS1PublicKey(&rk.PublicKey)))
+		// traditional keys with RFC 1421 headers in several states of repair
+		for hi, hdr := range []map[string]string{{"Proc-Type": "4"}, {"Proc-Type": ""}, {"Proc-Type": "4,ENCRYPTED"}, {"Proc-Type": "4,ENCRYPTED", "DEK-Info": "AES-128-CBC"}, {"Proc-Type": ",", "DEK-Info": ","}, {"DEK-Info": "AES-256-CBC,0011"}, {"Proc-Type": "4,ENCRYPTED,extra"}} {
+			add(fmt.Sprintf("pkcs1-rsa-with-headers-%d", hi), pem.EncodeToMemory(&pem.Block{Type: "RSA PRIVATE KEY", Headers: hdr, Bytes: x509.MarshalPKCS1PrivateKey(rk)}))
+			if der, err := x509.MarshalPKCS8PrivateKey(rk); err == nil {
+				add(fmt.Sprintf("pkcs8-rsa-with-headers-%d", hi), pem.EncodeToMemory(&pem.Block{Type: "PRIVATE KEY", Headers: hdr, Bytes: der}))
+			}
+		}
 		r.Count("foreign_key_kinds", int64(len(hs)))
 		addAll("pem.ReadKey", hs, nil)
 		addAll("pem.ReadCert", hs, nil)
@@ -801,7 +808,7 @@ func checkC14(r *mon.Run) {
 	}
 	// GUID text / bytes
 	var gs []hostile
-	for _, s := range []string{"", "-", "zz", "8be4df61-93ca-11d2-aa0d-00e098032b8c", "8be4df61-93ca-11d2-aa0d-00e098032b8", "8be4df61", strings.Repeat("f", 33), strings.Repeat("-", 40), "8BE4DF61-93CA-11D2-AA0D-00E098032B8C0000", "g" + strings.Repeat("0", 35)} {
+	for _, s := range []string{"", "-", "zz", "8be4df61-93ca-11d2-aa0d-00e098032b8c", "8be4df61-93ca-11d2-aa0d-00e098032b8", "8be4df61", strings.Repeat("f", 33), strings.Repeat("f", 34), strings.Repeat("a", 36), strings.Repeat("0", 40), strings.Repeat("9", 64), "8be4df6193ca11d2aa0d00e098032b8c8be4df6193ca11d2aa0d00e098032b8c", "8be4df61-93ca11d2aa0d00e098032b8c0000", "8be4df6193ca-11d2aa0d-00e098032b8c00", strings.Repeat("-", 40), "8BE4DF61-93CA-11D2-AA0D-00E098032B8C0000", "g" + strings.Repeat("0", 35)} {
 		gs = append(gs, hostile{[]byte(s), "guid-text", "", fmt.Sprint(len(s)), "guid"})
 	}
 	for n := 0; n <= 20; n++ {
